@@ -61,6 +61,17 @@ func (p *Proof) IsValid(public Public) bool {
 	if p == nil {
 		return false
 	}
+	// every field is needed below: a proof with a missing field is not valid
+	if p.Commitment == nil ||
+		p.Z1 == nil ||
+		p.Z2 == nil ||
+		p.W == nil ||
+		p.A == nil ||
+		p.Bx == nil ||
+		p.E == nil ||
+		p.S == nil {
+		return false
+	}
 	if !arith.IsValidNatModN(public.Verifier.N(), p.W) {
 		return false
 	}
